@@ -273,6 +273,14 @@ func (v *FV) execLock(fr *Frame, st *State, cc *ssa.CallCommon, kind string, pos
 	case "unlock", "runlock":
 		delete(st.held, hk)
 	}
+	// semantic record of the locks this thread holds (for locked(x.mu) in contracts)
+	v.regArray("LOCKED", "(Array Int Bool)")
+	lk := v.lockKey(ld.Owner, ld.Field, owner)
+	if kind == "lock" || kind == "rlock" {
+		v.wr(st.snap, "LOCKED", lk, "true")
+	} else {
+		v.wr(st.snap, "LOCKED", lk, "false")
+	}
 	if ld.Invariant == "" {
 		return
 	}
@@ -1490,4 +1498,18 @@ func (v *FV) methodKey(recv Term, m string) Term {
 		v.pre("fnax "+fn, fmt.Sprintf("(assert (forall ((r Int)) (! (and (< (%s r) (- 1000000)) (= (imk_tag (%s r)) %d) (= (inv_%s (%s r)) r)) :pattern ((%s r)))))", fn, fn, v.imkCtr, fn, fn, fn))
 	}
 	return fmt.Sprintf("(%s %s)", fn, recv)
+}
+
+
+// lockKey: the index of lock field `field` of object owner in the ghost array LOCKED.
+func (v *FV) lockKey(ownerType, field string, owner Term) Term {
+	fn := "lk_" + mangle(shortKey(ownerType)+"_"+field)
+	if !v.preSeen["fnax "+fn] {
+		v.imkCtr++
+		v.pre("fn "+fn, fmt.Sprintf("(declare-fun %s (Int) Int)", fn))
+		v.pre("imk_tag", "(declare-fun imk_tag (Int) Int)")
+		v.pre("fninv "+fn, fmt.Sprintf("(declare-fun inv_%s (Int) Int)", fn))
+		v.pre("fnax "+fn, fmt.Sprintf("(assert (forall ((r Int)) (! (and (< (%s r) (- 1000000)) (= (imk_tag (%s r)) %d) (= (inv_%s (%s r)) r)) :pattern ((%s r)))))", fn, fn, v.imkCtr, fn, fn, fn))
+	}
+	return fmt.Sprintf("(%s %s)", fn, owner)
 }
